@@ -392,6 +392,45 @@ def run(p: Program, rep: Report, tier: str) -> None:
             rep.violation("R10.2", construct(fn, text="cache eviction: " + hit), where(fn, n),
                           f"{fn.fq} removes an entry of an instance __dict__ ({hit}): a cached accessor result (e.g. the failed body future after a disconnect) is evicted and the next access "
                           "re-runs the accessor instead of returning the identical cached result / the same error")
+    # the same eviction through an ALIAS of the instance dict: `ns = obj.__dict__; del ns[name]`, or the dict handed to a
+    # repository function (directly or frozen into functools.partial as a done-callback) that deletes from its parameter
+    def _removals(fn_, var: str):
+        for n_ in ast.walk(fn_.node):
+            if isinstance(n_, ast.Delete):
+                for t_ in n_.targets:
+                    if isinstance(t_, ast.Subscript) and isinstance(t_.value, ast.Name) and t_.value.id == var:
+                        yield n_, f"del {var}[...]"
+            elif isinstance(n_, ast.Call) and isinstance(n_.func, ast.Attribute) and n_.func.attr in ("pop", "popitem", "clear", "__delitem__") and isinstance(n_.func.value, ast.Name) and n_.func.value.id == var:
+                yield n_, f"{var}.{n_.func.attr}(...)"
+
+    for fn in p.all_functions():
+        if fn.module.name not in REQ_MODS:
+            continue
+        for n in ast.walk(fn.node):
+            if isinstance(n, ast.Assign) and len(n.targets) == 1 and isinstance(n.targets[0], ast.Name) and isinstance(n.value, ast.Attribute) and n.value.attr == "__dict__":
+                for site, hit in _removals(fn, n.targets[0].id):
+                    rep.violation("R10.2", construct(fn, text="cache eviction through an alias: " + hit), where(fn, site),
+                                  f"{fn.fq} removes an entry of an instance __dict__ through the alias `{n.targets[0].id}` ({hit}): a cached accessor result is evicted and the next access re-runs the accessor", positive=True)
+            if not isinstance(n, ast.Call):
+                continue
+            for idx, a_ in enumerate(n.args):
+                if not (isinstance(a_, ast.Attribute) and a_.attr == "__dict__"):
+                    continue
+                tgt_, pidx = n.func, idx
+                if ast.unparse(n.func) in ("functools.partial", "partial") and n.args and idx >= 1:
+                    tgt_, pidx = n.args[0], idx - 1
+                if not isinstance(tgt_, ast.Name):
+                    continue
+                callee = fn.module.functions.get(tgt_.id) if hasattr(fn.module, "functions") else None
+                if callee is None:
+                    continue
+                params_ = [x.arg for x in callee.node.args.posonlyargs + callee.node.args.args]
+                if pidx >= len(params_):
+                    continue
+                for site, hit in _removals(callee, params_[pidx]):
+                    rep.violation("R10.2", construct(callee, text="cache eviction of the instance dict handed over by " + fn.name + ": " + hit), where(callee, site),
+                                  f"{fn.fq} hands `{ast.unparse(a_)}` to {callee.fq}{' (frozen into functools.partial)' if tgt_ is not n.func else ''}, which removes an entry from it ({hit}): a cached accessor "
+                                  "result (e.g. the failed body future after a disconnect) is evicted, the next access re-runs the accessor on the consumed stream instead of returning the identical cached result / the same error", positive=True)
     own_stores = 0
     for fn in p.all_functions():
         if fn.cls is cp or (fn.parent is not None and fn.parent.cls is cp):
